@@ -2,7 +2,7 @@
    Property theorems only; each is closed by [exact] of a lemma proved in Params_Proofs.v, instantiated with the
    parameter table regenerated from the current tree (gen/Gen_Params.v). *)
 From Coq Require Import ZArith Bool List String.
-From SV Require Import Dbl SettingsLexer ParamsModel Params_Proofs.
+From SV Require Import Dbl SettingsLexer SettingsLexer_Proofs ParamsModel Params_Proofs.
 From SVG Require Import Gen_Params.
 Import ListNotations.
 Local Open Scope Z_scope.
@@ -88,6 +88,24 @@ Theorem C15_saved_line_format_tokenises :
     tokenise (ty ++ [58] ++ name ++ [32; 61; 32] ++ val) = TOk ty name val.
 Proof. exact tokenise_canonical. Qed.
 Print Assumptions C15_saved_line_format_tokenises.
+
+(* A line without '=' assigns nothing: it is blank/comment or a syntax error, and the state is unchanged.  In
+   particular a line that stops right after the parameter name is rejected ... *)
+Theorem C15_line_without_equals_sign_assigns_nothing :
+  forall stod l s, ~ In 61%Z (cstr l) -> fst (parse_line B I R stod l s) = s.
+Proof.
+  intros stod l s H; unfold parse_line; destruct (tokenise_without_eq l H) as [E|E]; rewrite E; reflexivity.
+Qed.
+Print Assumptions C15_line_without_equals_sign_assigns_nothing.
+
+(* ... whatever the reader's line buffer holds behind the terminator of the line (the left-overs of an earlier,
+   longer line of the same settings file): the bytes behind the first NUL are not part of the line. *)
+Theorem C15_line_buffer_leftovers_invisible :
+  forall stod a b s, ~ In 0%Z a -> parse_line B I R stod (a ++ 0%Z :: b) s = parse_line B I R stod a s.
+Proof.
+  intros stod a b s H; unfold parse_line; rewrite (tokenise_ignores_buffer_tail a b H); reflexivity.
+Qed.
+Print Assumptions C15_line_buffer_leftovers_invisible.
 
 (* reset restores the documented defaults (and the components they select); seed and LP data stay. *)
 Theorem C15_reset_restores_defaults :
